@@ -82,6 +82,50 @@ for m, o in zip(meta, outs):
                       dict(m, correspondence="Model.Beamspread.reverse_beamspread (extracted)"),
                       failing_input_found=False)
 
+# ---------------------------------------------------------------------------
+# Snell-exact single-ray geometries with TILTED walls: the model is fed with leg
+# lengths and incidence angles computed analytically here (independent of arim's
+# RayGeometry), and the finite-difference ray tube is evaluated as the spec.
+# ---------------------------------------------------------------------------
+import snellexact
+se_lines, se_meta = [], []
+want_se = 150 if Q else 1500
+tries = 0
+while len(se_meta) < want_se and tries < 20 * want_se:
+    tries += 1
+    geom = snellexact.random_geometry(rng)
+    if geom is None:
+        continue
+    d_tube = snellexact.tube_distance(geom["src"], geom["phi"], geom["walls"], geom["vels"], geom["last_len"])
+    if d_tube is None or not (d_tube > 0):
+        continue
+    path = snellexact.arim_path(geom, arim)
+    impl = float(model.beamspread_2d_for_path(arim.ray.RayGeometry.from_path(path))[0, 0])
+    impl_rev = float(model.reverse_beamspread_2d_for_path(arim.ray.RayGeometry.from_path(path))[0, 0])
+    n = geom["nlegs"]
+    xs = geom["vels"] + geom["legs"] + geom["inc"]
+    se_lines.append(f"{n} " + " ".join(fhex(x) for x in xs))
+    se_meta.append(dict(nlegs=n, vels=geom["vels"], legs=geom["legs"], inc=geom["inc"], src=geom["src"], phi=geom["phi"],
+                        walls=[(list(w[0]), w[1], w[2]) for w in geom["walls"]], last_len=geom["last_len"],
+                        impl=impl, impl_rev=impl_rev, tube=1.0 / np.sqrt(d_tube)))
+    chk.count(snell_exact_legs=n, tilted=sum(1 for w in geom["walls"] if w[1] != 0.0))
+for m, o in zip(se_meta, drv.run(se_lines) if se_lines else []):
+    b, rb, vd, ta = (unhex(x) for x in o.split())
+    m.update(model_beamspread=b, model_tube_amplitude=ta)
+    if m["nlegs"] >= 2:
+        nontrivial.add(("snell", tuple(m["legs"])))
+    if not close(m["impl"], b, 1e-9):
+        spec_fails = not close(m["impl"], m["tube"], 1e-5)
+        chk.violation(f"snell-exact:{m['nlegs']}legs",
+                      "beamspread_2d_for_path on a Snell-exact ray (tilted walls) differs from the model fed with "
+                      "analytically computed leg lengths and angles",
+                      dict(m, correspondence="Model.Beamspread.beamspread on independent geometry"),
+                      failing_input_found=spec_fails)
+    elif not close(b, m["tube"], 1e-5) and b == b:
+        # the model itself disagrees with the finite-difference tube: model/spec problem, not arim's
+        chk.violation("snell-exact:fd-tube", "finite-difference ray tube disagrees with the proved model", m,
+                      failing_input_found=False)
+
 # scaling law on the implementation: scale the geometry by s -> beamspread / sqrt(s)
 nscale = 0
 for _ in range(3 if Q else 20):
@@ -108,12 +152,12 @@ for _ in range(3 if Q else 20):
 samples = [{k: meta[i][k] for k in ("path", "vel", "legs", "thetas", "impl", "model_beamspread", "spec_tube_amplitude")}
            for i in range(0, len(meta), max(1, len(meta) // 4))][:4]
 chk.finish(
-    evaluations=len(meta) + nscale,
+    evaluations=len(meta) + nscale + len(se_meta),
     distinct_nontrivial=len(nontrivial),
     rule=("one case = one ray (element i, scatterer j) of one path of a random immersion set-up (random materials, "
           "tilt, standoff, wall sampling, 0..2 reflections => 2..4 legs with mode conversion); non-trivial = at least "
           "one interface crossed (>= 2 legs); model inputs are read from arim's RayGeometry; tolerance 1e-11 relative"),
     samples=samples,
-    extra={"setups": nsetups, "scaling_cases": nscale, "disagreements": bad, "tolerance": TOL},
+    extra={"snell_exact_rays": len(se_meta), "setups": nsetups, "scaling_cases": nscale, "disagreements": bad, "tolerance": TOL},
     assumptions=["rounding: theorems hold in exact arithmetic; model and implementation are compared in binary64 at 1e-11"],
 )
